@@ -45,6 +45,8 @@ def callables(step, t_off, rate=1.0):
         return (lambda t, x: (1.0 + a * x[0]) * M), (lambda t: XVEL * (t - t_off))
     if via == "t":
         return (lambda t, x: (1.0 + a * (t - t_off)) * M), (lambda t: np.zeros(3))
+    if via == "t2":
+        return (lambda t, x: (1.0 + a * (t - t_off) ** 2) * M), (lambda t: np.zeros(3))
     return (lambda t, x: M), (lambda t: np.zeros(3))
 
 
